@@ -4089,6 +4089,9 @@ class TLSConnection(TLSRecordLayer):
             try:
                 if ticket_ext:
                     session = self._ticket_to_session(settings, ticket_ext)
+                    # tickets are issued before a Checker sees the peer, so
+                    # such a session can't be assumed to have been checked
+                    self._session_from_ticket = bool(session)
                     # client MAY send a random session_id to easily tell
                     # if the session is resumed, for that server has to
                     # echo the session_ID back
